@@ -142,11 +142,52 @@ func init() {
 		g.declareUF("zero_Opq_net_netip_Addr", "() Opq_net_netip_Addr")
 		g.quantAsm = true
 	}
+	// ground instances of the netip laws at a given Addr term (the quantified axioms are dropped in the
+	// quantifier-free stage, so every use site states the facts it needs)
+	addrFacts := func(f *Frame, a string) {
+		g := f.g
+		if g.inQuant > 0 || g.ufDecl["netipfacts:"+a] {
+			return
+		}
+		g.ufDecl["netipfacts:"+a] = true
+		g.addAxiom(sAnd(
+			sEq(sApp("netip_valid", a), sOr(sApp("netip_is4", a), sApp("netip_is6", a))),
+			sNot(sAnd(sApp("netip_is4", a), sApp("netip_is6", a))),
+			sImp(sApp("netip_is4in6", a), sApp("netip_is6", a)),
+			sImp(sApp("netip_is4in6", a), sApp("netip_is4", sApp("netip_unmap", a))),
+			sImp(sNot(sApp("netip_is4in6", a)), sEq(sApp("netip_unmap", a), a)),
+		))
+	}
+	apFacts := func(f *Frame, x string) {
+		g := f.g
+		if g.inQuant > 0 || g.ufDecl["netipapfacts:"+x] {
+			return
+		}
+		g.ufDecl["netipapfacts:"+x] = true
+		g.addAxiom(sEq(sApp("netip_ap_from", sApp("netip_ap_addr", x), sApp("netip_ap_port", x)), x))
+		addrFacts(f, sApp("netip_ap_addr", x))
+	}
 	uf1 := func(name, uf string, resK Kind) {
 		models[name] = func(f *Frame, args []*SVal, rt types.Type, pos token.Pos) *SVal {
 			netipDecl(f.g)
 			f.used("net/netip values are opaque; " + name + " is an uninterpreted projection with the usual algebraic laws")
-			return scalar(rt, kindOf(rt), sApp(uf, args[0].Term))
+			r := sApp(uf, args[0].Term)
+			switch uf {
+			case "netip_ap_addr", "netip_ap_port":
+				apFacts(f, args[0].Term)
+			case "netip_from4":
+				f.g.addAxiom(sAnd(sApp("netip_is4", r), sNot(sApp("netip_is4in6", r)), sEq(sApp("netip_as4", r), args[0].Term)))
+				addrFacts(f, r)
+			case "netip_from16":
+				f.g.addAxiom(sAnd(sApp("netip_is6", r), sEq(sApp("netip_as16", r), args[0].Term)))
+				addrFacts(f, r)
+			case "netip_unmap":
+				addrFacts(f, args[0].Term)
+				addrFacts(f, r)
+			default:
+				addrFacts(f, args[0].Term)
+			}
+			return scalar(rt, kindOf(rt), r)
 		}
 	}
 	uf1("(net/netip.AddrPort).Addr", "netip_ap_addr", KOpaque)
@@ -177,7 +218,12 @@ func init() {
 	models["net/netip.AddrPortFrom"] = func(f *Frame, args []*SVal, rt types.Type, pos token.Pos) *SVal {
 		netipDecl(f.g)
 		f.used("net/netip.AddrPortFrom as an uninterpreted constructor with Addr()/Port() projections")
-		return scalar(rt, KOpaque, sApp("netip_ap_from", args[0].Term, args[1].Term))
+		r := sApp("netip_ap_from", args[0].Term, args[1].Term)
+		if f.g.inQuant == 0 {
+			f.g.addAxiom(sAnd(sEq(sApp("netip_ap_addr", r), args[0].Term), sEq(sApp("netip_ap_port", r), args[1].Term)))
+			addrFacts(f, args[0].Term)
+		}
+		return scalar(rt, KOpaque, r)
 	}
 	// As4 panics on a non-IPv4 address (zero Addr or pure IPv6)
 	as4 := models["(net/netip.Addr).As4"]
